@@ -165,6 +165,30 @@ func runC15(c *fw.Ctx) {
 		run(store, []GOp{{Kind: "Copy", Bucket: "b", Name: "s2", DstBucket: "b2", DstName: "c"}, {Kind: "Copy", Bucket: "b2", Name: "c", DstBucket: "b", DstName: "s1"},
 			patchOf("b", "s1"), {Kind: "Compose", Bucket: "b", Name: "z", Srcs: []GSrc{{Name: "s1"}, {Name: "s2"}}, Meta: dmeta}}, "chain")
 	}
+	// histories: every sequence up to the depth bound over composes and copies that share sources and
+	// destinations, overwrites and deletes (the complete state is compared after every step, so a later
+	// operation that disturbs an earlier result is seen)
+	alpha := []GOp{
+		{Kind: "Compose", Bucket: "b", Name: "d1", Srcs: []GSrc{{Name: "s1"}, {Name: "s2"}}, Meta: dmeta},
+		{Kind: "Compose", Bucket: "b", Name: "d2", Srcs: []GSrc{{Name: "s1"}, {Name: "e"}, {Name: "s1"}}, Meta: gcs.ObjMeta{ContentType: "x/d2"}},
+		{Kind: "Compose", Bucket: "b", Name: "d1", Srcs: []GSrc{{Name: "s2"}, {Name: "s1"}}, Meta: dmeta},
+		{Kind: "Compose", Bucket: "b", Name: "d3", Srcs: []GSrc{{Name: "d1"}, {Name: "s2"}}, Meta: gcs.ObjMeta{ContentType: "x/d3"}},
+		{Kind: "Compose", Bucket: "b", Name: "s1", Srcs: []GSrc{{Name: "s1"}, {Name: "s2"}}, Meta: gcs.ObjMeta{ContentType: "x/s1"}},
+		{Kind: "Copy", Bucket: "b", Name: "s1", DstBucket: "b", DstName: "c1"},
+		{Kind: "Copy", Bucket: "b", Name: "d1", DstBucket: "b2", DstName: "c2"},
+		{Kind: "Copy", Bucket: "b", Name: "s2", DstBucket: "b", DstName: "s1"},
+		{Kind: "Upload", Proto: "media", Bucket: "b", Name: "s1", Data: []byte("one-new-and-longer"), Meta: ct},
+		{Kind: "Upload", Proto: "media", Bucket: "b", Name: "s2", Data: []byte("2"), Meta: ct},
+		{Kind: "Delete", Bucket: "b", Name: "s1"},
+		patchOf("b", "d1"), patchOf("b", "c1"),
+	}
+	depth := 3
+	if c.Thorough() {
+		depth = 4
+	}
+	for _, store := range []string{"mem", "file"} {
+		gcsBFS(c, "C15", store, 1, base, alpha, depth, false, c15Tag, store+"_histories")
+	}
 	c.Bound("compose_source_lists", len(lists))
 	c.Bound("copy_destination_names", c15DstNames)
 }
